@@ -227,9 +227,22 @@ impl Scenario for SigSc {
             let s1 = sha_dispatch(*k, *m, ids, false);
             let (kk, mm) = (*k, *m);
             crate::alloc_track::pause();
-            let fresh = std::thread::scope(|sc| sc.spawn(move || caught(|| sha_dispatch(kk, mm, ids, false))).join());
+            // the reference thread records its own allocations (a heap error of the library there must be recorded,
+            // not abort the harness)
+            let fresh = std::thread::scope(|sc| {
+                sc.spawn(move || {
+                    crate::alloc_track::arm();
+                    let r = caught(|| sha_dispatch(kk, mm, ids, false));
+                    let rep = crate::alloc_track::disarm();
+                    (r, rep)
+                })
+                .join()
+            });
             crate::alloc_track::resume();
-            if let Ok(Ok(sref)) = fresh {
+            if let Ok((_, rep)) = &fresh {
+                ctx.check("C18", "no-invalid-free", rep.clean(), || format!("ProbMinHash3aSha over {:?} keys (reference thread): {}", k, rep.first))?;
+            }
+            if let Ok((Ok(sref), _)) = fresh {
                 ctx.check("C18", "sha-signature-independent-of-thread-history", s1 == sref, || {
                     format!("{:?} keys: the signature computed after a {:?} sketcher ran in this thread differs from the one computed in a fresh thread", k, other)
                 })?;
